@@ -50,6 +50,7 @@ func genC07Case(t *rapid.T) C07Case {
 		candidates = []int{0}
 	}
 	s.SP = rapid.SampledFrom(candidates).Draw(t, "sp")
+	s.Prelude = genPrelude(t, spec, s.Host)
 	sp := spec.SPs[s.SP]
 	s.Style = genXMLStyle(t)
 	c.CData = rapid.IntRange(0, 4).Draw(t, "cdata") == 0
@@ -92,7 +93,8 @@ func genC07Case(t *rapid.T) C07Case {
 		}
 	case "logout":
 		l := spsim.NewLogoutReq(genID(t, "id"), sp.EntityID, "usermark0")
-		l.IssueInstant = spsim.Rel(-rapid.IntRange(5, 600).Draw(t, "issued"), rapid.IntRange(0, 9).Draw(t, "frac"), "")
+		// a conformant SP stamps the request "now": it is handled later, hence never before its IssueInstant
+		l.IssueInstant = spsim.Rel(-rapid.SampledFrom([]int{0, 0, 0, 1, 5, 60, 600}).Draw(t, "issued"), rapid.IntRange(0, 9).Draw(t, "frac"), "")
 		if rapid.Bool().Draw(t, "dest") {
 			l.Destination = spec.IdP.Advertised("slo", s.Host)
 		}
@@ -172,6 +174,7 @@ func c07Render(c C07Case, now time.Time) (obs.HTTPReq, error) {
 // c07Accepted runs the case and reports whether it was accepted, with a reason if not.
 func c07Accepted(c C07Case) (bool, string, obs.HTTPReq) {
 	w := mustBuild(c.SSO.Spec)
+	runPrelude(w, c.SSO.Spec, c.SSO.Prelude)
 	now := time.Now()
 	hr, err := c07Render(c, now)
 	if err != nil {
